@@ -90,6 +90,66 @@ func c08Generate(c *mon.Ctx) {
 		}
 	}
 
+	// pairs (u0, u1) whose two map outputs are RELATED on the isogenous curve: same ordinate with different
+	// abscissae, opposite ordinates with different abscissae (the other roots of x^3 + A'x + B' = y^2, pulled back through
+	// the map), the exceptional inputs: the exceptional loci of an addition law, which no message can be steered onto
+	rr := c.SharedRng("related-pairs")
+	pair := func(a, b *big.Int, cls string) {
+		// The library adds the two map outputs with the affine chord formula, which is defined for different abscissae only.
+		// Equal abscissae (u1 = +-u0) would need a message whose two field elements coincide up to sign: no such message
+		// can be exhibited, the statement quantifies over messages, so those pairs are not demanded here (DESIGN 10.4).
+		qa, _ := oracle.SSWU(a)
+		qb, _ := oracle.SSWU(b)
+
+		if qa.IsInf() || qb.IsInf() || qa.X.Cmp(qb.X) == 0 {
+			return
+		}
+
+		h := mon.H(append(append(append(append([]byte{}, pad...), oracle.Bytes32(a)...), pad...), oracle.Bytes32(b)...))
+		c.Structured(func() any { return &h2cCase{Fn: "pipeline", Uniform: h, Class: cls} })
+	}
+
+	exc, _ := oracle.FSqrt(oracle.FNeg(oracle.FInv0(oracle.Z)))
+
+	for i := 0; i < c.N(60, 2000); i++ {
+		u0 := gen.Draw(rr, oracle.P).X
+		if i < 3 {
+			u0 = []*big.Int{new(big.Int), exc, oracle.FNeg(exc)}[i]
+		}
+
+		pair(u0, new(big.Int), "pipeline-related:exceptional")
+
+		if exc != nil {
+			pair(exc, u0, "pipeline-related:exceptional")
+		}
+
+		q0, _ := oracle.SSWU(u0)
+		if q0.IsInf() {
+			continue
+		}
+
+		// other abscissae with the same y^2: roots of x^3 + A'x + (B' - y^2)
+		for _, x2 := range oracle.PolyRoots(oracle.FSub(oracle.IsoB, oracle.FSqr(q0.Y)), oracle.IsoA, new(big.Int), big.NewInt(1)) {
+			if x2.Cmp(q0.X) == 0 {
+				continue
+			}
+
+			for _, which := range []string{"x1", "x2out"} {
+				u1, ok := steerMapInput(which, oracle.FromLimbs(oracle.ToMont(x2, oracle.P)))
+				if !ok {
+					continue
+				}
+
+				if q1, _ := oracle.SSWU(u1); q1.IsInf() || q1.X.Cmp(x2) != 0 {
+					continue
+				}
+
+				pair(u0, u1, "pipeline-related:same-or-opposite-ordinate")
+				pair(u0, oracle.FNeg(u1), "pipeline-related:same-or-opposite-ordinate")
+			}
+		}
+	}
+
 	c.Random(c.N(2000, 200000), func(r *gen.Rng) any {
 		return &h2cCase{Fn: "pipeline", Uniform: mon.H(r.Bytes(48 * (1 + r.Intn(2)))), Class: "pipeline"}
 	})
@@ -137,6 +197,44 @@ func c08RunPipeline(c *mon.Ctx, cs *h2cCase) {
 	if ok, why := mon.ElemIs(got, want); !ok {
 		c.Fail(fmt.Sprintf("hash_to_curve pipeline (reduce, map, isogeny) on chosen uniform bytes %s disagrees with RFC 9380: %s", cs.Uniform, why), "h2c-pipeline-value", nil)
 		return
+	}
+
+	// the order in which HashToGroup itself composes the steps: both map outputs are added ON THE ISOGENOUS CURVE by the
+	// library's own addition there, and the isogeny is applied once (reachable only where the tree under test has that
+	// method under its present name and signature, see harness/access/addiso.go)
+	distinctX := func() bool {
+		// the chord formula the library uses there is defined for different abscissae; equal ones would need a message whose
+		// two field elements coincide up to sign, which nobody can exhibit: not demanded (DESIGN 10.4)
+		qa, _ := oracle.SSWU(oracle.Mod(new(big.Int).SetBytes(u[:48]), oracle.P))
+		qb, _ := oracle.SSWU(oracle.Mod(new(big.Int).SetBytes(u[48:]), oracle.P))
+
+		return !qa.IsInf() && !qb.IsInf() && qa.X.Cmp(qb.X) != 0
+	}
+
+	if len(u) == 96 && secp256k1.VHasAddIso && distinctX() {
+		c.Count("pipeline-added-on-the-isogenous-curve")
+		c.Eval(1)
+
+		var got2 *secp256k1.Element
+
+		if pan, pv := mon.Call(func() {
+			q0 := secp256k1.SSWU(field.New().HashToFieldElement([48]byte(u[:48])))
+			q1 := secp256k1.SSWU(field.New().HashToFieldElement([48]byte(u[48:])))
+			got2 = secp256k1.IsogenySecp256k13iso(secp256k1.VAddIso(q0, q1))
+		}); pan {
+			c.Fail(fmt.Sprintf("hash_to_curve pipeline (addition on the isogenous curve) panicked on chosen uniform bytes %s: %v", cs.Uniform, pv), "h2c-pipeline-panic", nil)
+			return
+		}
+
+		if ok, why := mon.RawValid(got2); !ok {
+			c.Fail(fmt.Sprintf("hash_to_curve pipeline (reduce, map, add on the isogenous curve, isogeny) on chosen uniform bytes %s yields an invalid point: %s", cs.Uniform, why), "h2c-pipeline-invalid", nil)
+			return
+		}
+
+		if ok, why := mon.ElemIs(got2, want); !ok {
+			c.Fail(fmt.Sprintf("hash_to_curve pipeline (reduce, map, add on the isogenous curve, isogeny) on chosen uniform bytes %s disagrees with RFC 9380: %s", cs.Uniform, why), "h2c-pipeline-value", nil)
+			return
+		}
 	}
 
 	c.Seen("pipeline", cs.Uniform)
